@@ -5,7 +5,7 @@
 import os, sys
 sys.path.insert(0, os.path.join(os.environ.get("AIOFTP_REPO", "/repo"), "src"))
 OBLIGATION = 'aioftp.server:retr_worker@retr::retr_worker/exit:owned-data-stream-closed'
-MODEL = {'wait_future_timeout!45': '0/1', 'data_connection_present!21': True, 'restart_offset!10': 1, 'block_size!0': 1, 'dc_accepted!33': True, 'dc_accepted!37': False, 'dc_accepted!30': False, 'dc_accepted!47': False, 'data_connection_done!22': False, 'dc_accepted!43': False, 'dc_accepted!42': False, 'dc_accepted!29': False, 'dc_accepted!36': False, 'dc_accepted!32': False, 'user_present!11': True, 'user_done!12': True, 'fsbool!35': True, 'current_directory_present!15': True, 'current_directory_done!16': True, 'passive_server_present!19': True, 'readable!40': True, 'logged_present!13': True, 'passive_server_done!20': True, 'logged_done!14': True, 'fsbool!39': True, 'auth_ok!27': True}
+MODEL = {'restart_offset!10': 1, 'data_connection_present!21': True, 'block_size!0': 1, 'wait_future_timeout!52': '0/1', 'data_connection_done!22': True, 'dc_accepted!54': False, 'dc_accepted!43': False, 'dc_accepted!33': False, 'dc_accepted!37': False, 'dc_accepted!30': False, 'dc_accepted!36': False, 'dc_accepted!32': False, 'dc_accepted!29': False, 'dc_accepted!42': False, 'user_present!11': True, 'current_directory_present!56': True, 'user_done!12': True, 'fsbool!35': True, 'passive_server_done!20': True, 'logged_done!14': True, 'fsbool!39': True, 'current_directory_done!79': True, 'current_directory_present!45': True, 'current_directory_done!46': True, 'current_directory_done!68': True, 'current_directory_done!57': True, 'current_directory_present!88': True, 'current_directory_done!89': True, 'current_directory_present!15': True, 'current_directory_done!16': True, 'passive_server_present!19': True, 'current_directory_present!78': True, 'logged_present!13': True, 'readable!40': True, 'current_directory_present!67': True, 'auth_ok!27': True}
 SOLVER_NOTE = ''
 
 print("obligation", OBLIGATION, "failed; no concrete failing input could be constructed automatically")
